@@ -6,6 +6,7 @@ check-express, exppp, exp2cxx, exp2python (exit status, ERROR lines, created fil
 the diagnostics printed by the tool fed to the extracted model of main(); random and
 exhaustive inheritance graphs for the sub/supertype cycle check (guarded hook prints the
 subtype lists the check walks)."""
+import glob
 import os
 import re
 import shutil
@@ -92,10 +93,20 @@ def main(tier, seed):
         p = out.split()
         return (int(p[1]), int(p[3])) if len(p) >= 4 and p[0] == "M" else (None, None)
 
+    # a catalogue of faulty schemas, one (or more) per diagnostic of the error table that a schema can provoke
+    # (corpus/C04/diag/<name>.exp, first line "-- expect: PE0xx ..."): every tool rejects, names the diagnostic, writes nothing
+    catalogue = []
+    for pth in sorted(glob.glob(os.path.join(VERIF, "corpus", "C04", "diag", "*.exp"))):
+        t_ = open(pth).read()
+        m_ = re.match(r"-- expect:([^\n]*)\n", t_)
+        catalogue.append(("catalogue_" + os.path.basename(pth)[:-4], "corpus/C04/diag/" + os.path.basename(pth), t_,
+                          {"codes": [int(c[2:]) for c in m_.group(1).split()]} if m_ else {}))
     for k in range(nsch):
         r = rng(seed, "c04/%d" % k)
         S = G.gen_schema(r, name="gen_%d" % k, keywordish=(k % 4 == 0))
         cases = [("valid", "generated valid schema", G.render(S, tail_remarks=(k % 2 == 0)), {})]
+        if k == 0:
+            cases += catalogue
         if k % 5 == 1:
             # multi-schema file with USE FROM
             S2 = G.gen_schema(r, name="gen_%d_b" % k, n_ent=3, n_types=2)
@@ -125,6 +136,8 @@ def main(tier, seed):
                     what = "%s accepts a schema with a %s fault (%s)" % (tool, cls, desc)
                 elif cls != "valid" and files:
                     what = "%s wrote %s although it rejected the schema (%s)" % (tool, files[:3], desc)
+                elif cls.startswith("catalogue_") and expect.get("codes") and not any(d[0] == "ERROR" and d[1] in expect["codes"] for d in diags):
+                    what = "%s does not report PE%s for %s: %s" % (tool, "/PE".join("%03d" % c for c in expect["codes"]), desc, [d[3][-80:] for d in diags][:3])
                 elif cls == "valid" and tool != "check-express" and not files:
                     what = "%s accepted the schema but produced no output" % tool
                 if what:
